@@ -8,6 +8,7 @@ import (
 	"errors"
 	"fmt"
 	"testing"
+	"time"
 
 	"github.com/gotid/god/internal/verifdrv"
 	"github.com/gotid/god/lib/load"
@@ -89,15 +90,29 @@ func TestVerifDriverC09(t *testing.T) {
 					panic(errors.New("verif panic error"))
 				case 6:
 					panic(context.DeadlineExceeded)
+				case 7, 8:
+					// the request's context was already dead on arrival (7 deadline expired, 8 cancelled): the handler
+					// gives up with the context's own error
+					return nil, ctx.Err()
 				}
+				// 9: dead on arrival (deadline expired) but the handler answers all the same
 				return "ok", nil
+			}
+			cctx, cancel := context.Background(), context.CancelFunc(func() {})
+			switch call[1] {
+			case 7, 9:
+				cctx, cancel = context.WithDeadline(context.Background(), time.Unix(1, 0))
+			case 8:
+				cctx, cancel = context.WithCancel(context.Background())
+				cancel()
 			}
 			var err error
 			escaped, _ := verifdrv.Catch(func() {
-				_, err = UnaryCrashInterceptor(context.Background(), "req", info, func(ctx context.Context, req any) (any, error) {
+				_, err = UnaryCrashInterceptor(cctx, "req", info, func(ctx context.Context, req any) (any, error) {
 					return shed(ctx, req, info, handler)
 				})
 			})
+			cancel()
 			back := int64(-1)
 			switch {
 			case escaped:
@@ -105,6 +120,8 @@ func TestVerifDriverC09(t *testing.T) {
 			case err == nil:
 			case err == context.DeadlineExceeded:
 				back = 100
+			case err == context.Canceled:
+				back = 102
 			case err == load.ErrServiceOverloaded:
 				back = 200
 			case errors.Is(err, context.DeadlineExceeded):
